@@ -11,6 +11,7 @@
     short, long and visible alias the accessors return, the [nu-complete] definition with every possible value. *)
 From ClapModel Require Import Base.Bytes Complete.AotTree Complete.AotProofs Complete.BashProofs.
 From ClapModel Require Import Complete.FishModel Complete.FishProofs Complete.NushellModel Escape.EscapeModel.
+From ClapModel Require Complete.BuildTexts.
 From Coq Require Import String Lia.
 Open Scope N_scope.
 Open Scope list_scope.
@@ -425,4 +426,303 @@ Proof.
   - intros sc Hsc d' s' Hs'. destruct (bins_built_sub c sc Hbb Hsc) as [H1 H2].
     apply generate_completion_spec; assumption.
   - destruct (node_pieces_ends name c d false) as [b ->]. apply ends_nl_app_r. eexists. reflexivity.
+Qed.
+
+Theorem nushell_total c d : c_bin c <> None -> bins_built c -> exists s, nushell_script c d = Some s.
+Proof. intros H1 H2. eexists. apply nushell_script_spec; assumption. Qed.
+
+(** the only way to fail is a missing bin name *)
+Theorem nushell_none_no_bin c d : nushell_script c d = None -> c_bin c = None \/ ~ bins_built c.
+Proof.
+  intros H. destruct (c_bin c) as [b|] eqn:Eb; [|left; reflexivity]. right. intros Hbb.
+  rewrite nushell_script_spec in H; [discriminate|rewrite Eb; discriminate|exact Hbb].
+Qed.
+
+Theorem nushell_deterministic c d s1 s2 : nushell_script c d = Some s1 -> nushell_script c d = Some s2 -> s1 = s2.
+Proof. intros H1 H2. rewrite H1 in H2. inversion H2. reflexivity. Qed.
+
+(** [generate(Nushell, cmd, bin, buf)] writes a module for EVERY command tree, texts and bin name *)
+Theorem generate_nushell_total c d bin : exists b,
+  build (set_bin_name c bin) = Some b /\ c_bin b = Some bin /\ bins_built b /\
+  generate_nushell c d bin = Some (nrender (nu_pieces b (dbuild (set_bin_name c bin) d))).
+Proof.
+  unfold generate_nushell. destruct (build (set_bin_name c bin)) as [b|] eqn:Eb.
+  - exists b. split; [reflexivity|].
+    assert (Hbin := BuildTexts.build_root_bin c bin b Eb). assert (Hbb := build_bins_built _ _ Eb).
+    split; [exact Hbin|]. split; [exact Hbb|].
+    apply nushell_script_spec; [rewrite Hbin; discriminate|exact Hbb].
+  - exfalso. exact (BuildTexts.build_total _ Eb).
+Qed.
+
+(** ---- (C) coverage ---- *)
+Lemma in_flat_map_split {A B} (f : A -> list B) l x : In x l -> exists l1 l2, flat_map f l = l1 ++ f x ++ l2.
+Proof.
+  intros H. apply in_split in H. destruct H as (a & b & ->).
+  exists (flat_map f a), (flat_map f b). rewrite flat_map_app. reflexivity.
+Qed.
+
+(** the block of every node reached from a subcommand is a contiguous part of that subcommand's pieces *)
+Lemma tree_covers sc ws ns n : reach sc ws ns n ->
+  forall d, exists dn pre post, tree_pieces sc d = pre ++ node_pieces (bin_of n) n dn true ++ post.
+Proof.
+  induction 1 as [c|c sc w ws ns n Hin Hw Hr IH]; intros d.
+  - exists d, [], (subs_pieces c d). rewrite tree_pieces_unfold. reflexivity.
+  - rewrite tree_pieces_unfold. destruct (zipd_in cd0 (c_subs c) sc Hin (cd_subs d)) as [dsc Hq].
+    destruct (in_flat_map_split (fun q : cmd * cdesc => tree_pieces (fst q) (snd q)) _ _ Hq) as (l1 & l2 & E).
+    destruct (IH dsc) as (dn & pre & post & E2).
+    exists dn, (node_pieces (bin_of c) c d true ++ l1 ++ pre), (post ++ l2).
+    unfold subs_pieces. rewrite E. cbn [fst snd]. rewrite E2, <- !app_assoc. reflexivity.
+Qed.
+
+(** ONE [export extern] block per subcommand path: for every path of names or visible aliases, at every depth *)
+Theorem nu_pieces_covers c d ws ns n : reach c ws ns n ->
+  exists dn pre post, nu_pieces c d = pre ++ node_pieces (bin_of n) n dn (negb (is_nil ns)) ++ post.
+Proof.
+  intros Hr. destruct Hr as [c|c sc w ws' ns' n Hin Hw Hr'].
+  - exists d, [NFx module_open], (subs_pieces c d ++ [NFx module_close]). unfold nu_pieces. cbn [is_nil negb app].
+    reflexivity.
+  - destruct (zipd_in cd0 (c_subs c) sc Hin (cd_subs d)) as [dsc Hq].
+    destruct (in_flat_map_split (fun q : cmd * cdesc => tree_pieces (fst q) (snd q)) _ _ Hq) as (l1 & l2 & E).
+    destruct (tree_covers sc ws' ns' n Hr' dsc) as (dn & pre & post & E2).
+    exists dn, (NFx module_open :: node_pieces (bin_of c) c d false ++ l1 ++ pre), (post ++ l2 ++ [NFx module_close]).
+    unfold nu_pieces, subs_pieces. rewrite E. cbn [fst snd is_nil negb]. rewrite E2, <- !app_assoc.
+    cbn [app]. rewrite <- !app_assoc. reflexivity.
+Qed.
+
+(** which line mentions a spelling *)
+Definition mentions_short (s st : bytes) : Prop := st = short_start s \/ exists l, st = both_start l s.
+Definition mentions_long (l st : bytes) : Prop := st = long_start l \/ exists s, st = both_start l s.
+
+Lemma longs_cons a longs : get_long_and_visible_aliases a = Some longs -> exists l0 ls, longs = l0 :: ls.
+Proof. unfold get_long_and_visible_aliases. destruct (a_long a); intros H; inversion H. eauto. Qed.
+Lemma shorts_cons a shorts : get_short_and_visible_aliases a = Some shorts -> exists s0 ss, shorts = s0 :: ss.
+Proof. unfold get_short_and_visible_aliases. destruct (a_short a); intros H; inversion H. eauto. Qed.
+
+Lemma starts_short a shorts s : a_is_positional a = false ->
+  get_short_and_visible_aliases a = Some shorts -> In s shorts ->
+  exists st, In st (arg_starts a) /\ mentions_short s st.
+Proof.
+  intros Hpos Hs Hin. unfold arg_starts. rewrite Hpos. unfold opt_starts. rewrite Hs.
+  destruct (get_long_and_visible_aliases a) as [longs|] eqn:El.
+  - destruct (longs_cons a longs El) as (l0 & ls & ->). destruct (shorts_cons a shorts Hs) as (s0 & ss & ->).
+    destruct Hin as [<-|Hin].
+    + exists (both_start l0 s0). split; [left; reflexivity|right; exists l0; reflexivity].
+    + exists (short_start s). split; [|left; reflexivity]. right. apply in_or_app. right. apply in_map. exact Hin.
+  - exists (short_start s). split; [apply in_map; exact Hin|left; reflexivity].
+Qed.
+
+Lemma starts_long a longs l : a_is_positional a = false ->
+  get_long_and_visible_aliases a = Some longs -> In l longs ->
+  exists st, In st (arg_starts a) /\ mentions_long l st.
+Proof.
+  intros Hpos Hl Hin. unfold arg_starts. rewrite Hpos. unfold opt_starts. rewrite Hl.
+  destruct (get_short_and_visible_aliases a) as [shorts|] eqn:Es.
+  - destruct (longs_cons a longs Hl) as (l0 & ls & ->). destruct (shorts_cons a shorts Es) as (s0 & ss & ->).
+    destruct Hin as [<-|Hin].
+    + exists (both_start l0 s0). split; [left; reflexivity|right; exists s0; reflexivity].
+    + exists (long_start l). split; [|left; reflexivity]. right. apply in_or_app. left. apply in_map. exact Hin.
+  - exists (long_start l). split; [apply in_map; exact Hin|left; reflexivity].
+Qed.
+
+Lemma node_has_extern name c d sub : In (NFx (extern_line sub name)) (node_pieces name c d sub).
+Proof. unfold node_pieces. cbv zeta. right. apply in_or_app. right. left. reflexivity. Qed.
+
+Lemma node_has_arg_line name c d sub a st : In a (c_args c) -> In st (arg_starts a) ->
+  In (NFx (st ++ type_suffix a name)) (node_pieces name c d sub).
+Proof.
+  intros Ha Hst. unfold node_pieces. cbv zeta. right. apply in_or_app. right. right. apply in_or_app. left.
+  destruct (zipd_in ad0 (c_args c) a Ha (cd_args d)) as [ad Hq].
+  apply in_flat_map. exists (a, ad). split; [exact Hq|].
+  unfold arg_pieces. cbn [fst snd]. apply in_flat_map. exists st. split; [exact Hst|]. left. reflexivity.
+Qed.
+
+Definition def_header (a : arg) (name : bytes) : bytes :=
+  lit "  def " ++ dquote ++ lit "nu-complete " ++ name ++ lit " " ++ a_id a ++ dquote ++ lit " [] {".
+
+Lemma defs_has_value a name v : In v (get_possible_values a) ->
+  exists x y, defs_bytes a name = def_header a name ++ x ++ value_word v ++ y.
+Proof.
+  intros Hv. unfold defs_bytes, def_header. destruct (get_possible_values a) as [|v0 l] eqn:E; [destruct Hv|].
+  cbn [is_nil]. rewrite <- E in Hv |- *. destruct (in_flat_map_split value_word _ _ Hv) as (l1 & l2 & ->).
+  exists (lf ++ lit "    [" ++ l1), (l2 ++ lit " ]" ++ lf ++ lit "  }" ++ lf ++ lf).
+  rewrite <- !app_assoc. reflexivity.
+Qed.
+
+Lemma takes_values_of_pv a v : In v (get_possible_values a) -> a_takes_values a = true.
+Proof. unfold get_possible_values. destruct (a_takes_values a); [reflexivity|intros []]. Qed.
+
+Lemma type_suffix_of_pv a name v : In v (get_possible_values a) ->
+  type_suffix a name = lit ": " ++ nu_type (a_get_hint a) ++ complete_ref a name.
+Proof.
+  intros Hv. unfold type_suffix. rewrite (takes_values_of_pv a v Hv).
+  destruct (get_possible_values a); [destruct Hv|reflexivity].
+Qed.
+
+(** [Arg::get_possible_values] against [utils::possible_values] (the accessor the other generators use):
+    the same list, hidden values included *)
+Lemma get_possible_values_utils a :
+  get_possible_values a = match possible_values a with Some l => l | None => [] end.
+Proof. unfold get_possible_values, possible_values. destruct (negb (a_takes_values a)); reflexivity. Qed.
+
+(** what the block [blk] of the command [n], declared under [name], mentions *)
+Definition node_mentions (name : bytes) (n : cmd) (is_subcommand : bool) (blk : list npiece) : Prop :=
+  In (NFx (extern_line is_subcommand name)) blk /\
+  (forall a, In a (c_args n) -> a_is_positional a = false ->
+     (forall shorts s, get_short_and_visible_aliases a = Some shorts -> In s shorts ->
+        exists st, mentions_short s st /\ In (NFx (st ++ type_suffix a name)) blk) /\
+     (forall longs l, get_long_and_visible_aliases a = Some longs -> In l longs ->
+        exists st, mentions_long l st /\ In (NFx (st ++ type_suffix a name)) blk)) /\
+  (forall a, In a (c_args n) -> a_is_positional a = true -> In (NFx (pos_start a ++ type_suffix a name)) blk) /\
+  (forall a v, In a (c_args n) -> In v (get_possible_values a) ->
+     type_suffix a name = lit ": " ++ nu_type (a_get_hint a) ++ complete_ref a name /\
+     exists x y x' y' rest, blk = NFx (x ++ defs_bytes a name ++ y) :: rest /\
+                            defs_bytes a name = def_header a name ++ x' ++ value_word v ++ y').
+
+Lemma flat_map_defs_zipd name (l : list arg) : forall m,
+  flat_map (fun p : arg * adesc => defs_bytes (fst p) name) (zipd ad0 l m) = flat_map (fun a => defs_bytes a name) l.
+Proof. induction l as [|a l IH]; intros m; [reflexivity|]. cbn [zipd flat_map fst]. rewrite IH. reflexivity. Qed.
+
+Theorem node_pieces_mentions name n dn sub : node_mentions name n sub (node_pieces name n dn sub).
+Proof.
+  split; [apply node_has_extern|]. split; [|split].
+  - intros a Ha Hpos. split.
+    + intros shorts s Hs Hin. destruct (starts_short a shorts s Hpos Hs Hin) as (st & Hst & Hm).
+      exists st. split; [exact Hm|]. apply node_has_arg_line; assumption.
+    + intros longs l Hl Hin. destruct (starts_long a longs l Hpos Hl Hin) as (st & Hst & Hm).
+      exists st. split; [exact Hm|]. apply node_has_arg_line; assumption.
+  - intros a Ha Hpos. apply node_has_arg_line; [exact Ha|]. unfold arg_starts. rewrite Hpos. left. reflexivity.
+  - intros a v Ha Hv. split; [apply (type_suffix_of_pv a name v Hv)|].
+    destruct (defs_has_value a name v Hv) as (x' & y' & E).
+    destruct (in_flat_map_split (fun a => defs_bytes a name) _ _ Ha) as (x & y & E2).
+    exists x, y, x', y'. eexists. split; [|exact E].
+    unfold node_pieces. cbv zeta. rewrite flat_map_defs_zipd, E2. reflexivity.
+Qed.
+
+(** C16 for nushell, any tree whose nodes have bin names, EVERY depth *)
+Theorem nushell_covers c d ws ns n : c_bin c <> None -> bins_built c -> reach c ws ns n ->
+  exists blk pre post,
+    nushell_script c d = Some (nrender (pre ++ blk ++ post)) /\
+    node_mentions (bin_of n) n (negb (is_nil ns)) blk.
+Proof.
+  intros Hb Hbb Hr. destruct (nu_pieces_covers c d ws ns n Hr) as (dn & pre & post & E).
+  exists (node_pieces (bin_of n) n dn (negb (is_nil ns))), pre, post. split.
+  - rewrite <- E. apply nushell_script_spec; assumption.
+  - apply node_pieces_mentions.
+Qed.
+
+(** the name a block is declared under: the bin path "bin n1 .. nk" of the NAMES on the path *)
+Theorem nushell_covers_linked c d bin ws ns n : c_bin c = Some bin -> linked c -> reach c ws ns n ->
+  exists blk pre post,
+    nushell_script c d = Some (nrender (pre ++ blk ++ post)) /\
+    node_mentions (bin ++ join_with [32] ns) n (negb (is_nil ns)) blk.
+Proof.
+  intros Hb Hl Hr.
+  assert (Hn : bin_of n = bin ++ join_with [32] ns) by (unfold bin_of; rewrite (reach_bin c ws ns n Hr bin Hb Hl); reflexivity).
+  rewrite <- Hn. apply (nushell_covers c d ws ns n); [rewrite Hb; discriminate|apply linked_bins_built; exact Hl|exact Hr].
+Qed.
+
+(** the same about the module [generate] writes for a user's tree *)
+Theorem generate_nushell_covers c d bin : exists b s,
+  build (set_bin_name c bin) = Some b /\ generate_nushell c d bin = Some s /\
+  forall ws ns n, reach b ws ns n ->
+    exists blk pre post, s = nrender (pre ++ blk ++ post) /\ node_mentions (bin_of n) n (negb (is_nil ns)) blk.
+Proof.
+  destruct (generate_nushell_total c d bin) as (b & Eb & Hbin & Hbb & Eg).
+  exists b. eexists. split; [exact Eb|]. split; [exact Eg|]. intros ws ns n Hr.
+  destruct (nu_pieces_covers b (dbuild (set_bin_name c bin) d) ws ns n Hr) as (dn & pre & post & E).
+  exists (node_pieces (bin_of n) n dn (negb (is_nil ns))), pre, post. split; [rewrite <- E; reflexivity|].
+  apply node_pieces_mentions.
+Qed.
+
+(** the property's wording in the class where an alias comes with its primary spelling: every short, long
+    and visible alias of every named argument starts a line of the block *)
+Theorem node_mentions_all_spellings name n sub blk : node_mentions name n sub blk -> aliases_have_primary n ->
+  forall a, In a (c_args n) -> a_is_positional a = false ->
+    (forall s, a_short a = Some s \/ In (s, true) (a_short_aliases a) ->
+       exists st, mentions_short s st /\ In (NFx (st ++ type_suffix a name)) blk) /\
+    (forall l, a_long a = Some l \/ In (l, true) (a_aliases a) ->
+       exists st, mentions_long l st /\ In (NFx (st ++ type_suffix a name)) blk).
+Proof.
+  intros (_ & Hargs & _) Hp a Ha Hpos. destruct (Hargs a Ha Hpos) as [Hs Hl]. split.
+  - intros s H. destruct (short_spelling_listed n a s Hp Ha H) as (shorts & E & Hin). eapply Hs; eassumption.
+  - intros l H. destruct (long_spelling_listed n a l Hp Ha H) as (longs & E & Hin). eapply Hl; eassumption.
+Qed.
+
+(** what a piece means for the bytes of the module *)
+Lemma nrender_in (l : list npiece) p : In p l -> exists pre post, nrender l = pre ++ nrender1 p ++ post.
+Proof.
+  intros H. apply in_split in H. destruct H as (l1 & l2 & ->).
+  exists (nrender l1), (nrender l2). rewrite nrender_app, nrender_cons. reflexivity.
+Qed.
+
+Theorem mention_in_text pre blk post p : In p blk ->
+  exists x y, nrender (pre ++ blk ++ post) = x ++ nrender1 p ++ y.
+Proof.
+  intros H. destruct (nrender_in blk p H) as (a & b & E).
+  exists (nrender pre ++ a), (b ++ nrender post). rewrite !nrender_app, E, <- !app_assoc. reflexivity.
+Qed.
+
+(** ---- non-vacuity and the class boundaries ---- *)
+(** the hypotheses of [nushell_covers_linked] hold for a linked three-level tree with a hyphenated name,
+    reached through a visible alias *)
+Example nushell_covers_linked_hyps :
+  c_bin ex_root = Some [112] /\ linked ex_root /\ reach ex_root [[120]; [99]] [[97; 45; 98]; [99]] ex_leaf.
+Proof. destruct mangle_safe_example as (H1 & H2 & _ & H4). auto. Qed.
+
+(** [generate] on a user tree: root [p], subcommand [a-b] (visible alias [x], hidden alias [y]) with the
+    subcommand [c] that has the option [-o/--opt] with the visible short alias [x], the visible alias
+    [--al], the hidden alias [--hi] and the values [v1], [v2] (hidden).  The built tree is reached through the
+    alias; the module declares the path by NAMES, has the four lines, the definition with both values,
+    and nothing for the hidden alias *)
+Lemma reach_cons' c sc w ws nm ns n :
+  In sc (c_subs c) -> In w (sc_words sc) -> nm = c_name sc -> reach sc ws ns n -> reach c (w :: ws) (nm :: ns) n.
+Proof. intros H1 H2 -> H3. eapply reach_cons; eassumption. Qed.
+
+Example generate_nushell_example :
+  exists b n s,
+    build (set_bin_name ex_fish_root [112]) = Some b /\
+    reach b [[120]; [99]] [[97; 45; 98]; [99]] n /\ In ex_opt (c_args n) /\ aliases_have_primary n /\
+    bin_of n = lit "p a-b c" /\
+    generate_nushell ex_fish_root cd0 [112] = Some s /\
+    has_infix s (lit "  export extern ""p a-b c"" [") = true /\
+    has_infix s (lit "    --opt(-o): string@""nu-complete p a-b c o""") = true /\
+    has_infix s (lit "    --al: string@""nu-complete p a-b c o""") = true /\
+    has_infix s (lit "    -x: string@""nu-complete p a-b c o""") = true /\
+    has_infix s (lit "  def ""nu-complete p a-b c o"" [] {") = true /\
+    has_infix s (lit "    [ ""v1"" ""v2"" ]") = true /\
+    has_infix s (lit "--hi") = false.
+Proof.
+  eexists. eexists. eexists. split; [vm_compute; reflexivity|]. split.
+  { eapply reach_cons'; [left; reflexivity|right; left; reflexivity|reflexivity|].
+    eapply reach_cons'; [left; reflexivity|left; reflexivity|reflexivity|apply reach_nil]. }
+  split; [left; reflexivity|]. split.
+  { intros a Ha. vm_compute in Ha. destruct Ha as [<-|[<-|[]]]; split; intros _; discriminate. }
+  split; [reflexivity|]. split; [vm_compute; reflexivity|].
+  repeat split; vm_compute; reflexivity.
+Qed.
+
+(** finding [alias-without-primary]: a visible short alias of an option without a short starts no line --
+    the spelling "-x" occurs nowhere in the module *)
+Lemma nushell_alias_without_primary_refuted :
+  exists c d bin s o x,
+    generate_nushell c d bin = Some s /\ In o (c_args c) /\ a_is_positional o = false /\
+    In (x, true) (a_short_aliases o) /\ has_infix s (lit "-" ++ x) = false.
+Proof.
+  exists (mkCmd [112] [] [alias_only_arg] [] None false false sets0 sets0), cd0, [112]. eexists. exists alias_only_arg, [120].
+  split; [vm_compute; reflexivity|]. split; [left; reflexivity|]. split; [reflexivity|].
+  split; [left; reflexivity|]. vm_compute. reflexivity.
+Qed.
+
+(** finding [nushell-subcommand-aliases]: a visible alias of a subcommand is declared nowhere -- the module
+    has the block of the NAME path only, the alias occurs nowhere in it *)
+Definition alias_sub_tree : cmd :=
+  mkCmd [112] [] [] [mkCmd (lit "sub") [(lit "zz", true)] [] [] None false false sets0 sets0] None false false sets0 sets0.
+Lemma nushell_subcommand_alias_refuted :
+  exists c d bin s sc w,
+    generate_nushell c d bin = Some s /\ In sc (c_subs c) /\ In (w, true) (c_aliases sc) /\
+    has_infix s (lit "  export extern ""p sub"" [") = true /\ has_infix s w = false.
+Proof.
+  exists alias_sub_tree, cd0, [112]. eexists. eexists. exists (lit "zz").
+  split; [vm_compute; reflexivity|]. split; [left; reflexivity|]. split; [left; reflexivity|].
+  split; vm_compute; reflexivity.
 Qed.
